@@ -429,6 +429,7 @@ func checkTruncation(c *Check, w *World, rule, fn string, numT, sumT, modT *Term
 	} else {
 		c.OK(rule, fn, "reduction-modulus", "reduced modulo the per-length table entry, unmodified, in 64-bit arithmetic", pos)
 	}
+	val = beAccumLoops(val)
 	lv := lanesOf(val, 0)
 	if lv.unknown {
 		c.Unk(rule, fn, "dynamic-truncation", "the 31-bit value is not a recognised composition of four HMAC bytes: "+clip(val.String(), 200), pos)
@@ -473,6 +474,192 @@ func checkTruncation(c *Check, w *World, rule, fn string, numT, sumT, modT *Term
 		}
 	}
 	c.Decide(okAll, rule, fn, "dynamic-truncation", "value = sum[o]<<24 | sum[o+1]<<16 | sum[o+2]<<8 | sum[o+3], o = sum[len-1] & 0x0f, bit 31 cleared", "dynamic truncation differs from RFC 4226 §5.3: "+why, pos)
+}
+
+// beAccumLoops rewrites the big-endian accumulation loop
+//
+//	var w uintN; for i := start; i < start+k; i++ { w = w<<8 | uintN(src[i]) }
+//
+// (k a constant 1..8, the loop's only exit the counted test) into the unrolled term
+// src[start]<<8(k-1) | … | src[start+k-1], which the byte-lane abstraction reads. Recognised structurally on the loop's
+// SSA form (accumulator phi 0 / w<<8|byte, index phi start / +1, test i < start+k); nothing is executed.
+func beAccumLoops(t *Term) *Term {
+	if t == nil {
+		return t
+	}
+	if t.Op == "phi" {
+		if r := beAccumLoop(t); r != nil {
+			return r
+		}
+	}
+	changed := false
+	args := make([]*Term, len(t.Args))
+	for i, a := range t.Args {
+		args[i] = beAccumLoops(a)
+		if args[i] != a {
+			changed = true
+		}
+	}
+	if !changed {
+		return t
+	}
+	return &Term{Op: t.Op, Sym: t.Sym, Args: args, Val: t.Val, Typ: t.Typ, Env: t.Env}
+}
+
+func beAccumLoop(t *Term) *Term {
+	ph, ok := t.Val.(*ssa.Phi)
+	if !ok || len(ph.Edges) != 2 || len(t.Args) != 2 {
+		return nil
+	}
+	h := ph.Block()
+	// SSA shape: edges (init 0, back w<<8|conv(load src[i]))
+	var back *ssa.BinOp
+	for i, e := range ph.Edges {
+		if h.Dominates(h.Preds[i]) {
+			back, _ = e.(*ssa.BinOp)
+		} else if !isConstInt(e, 0) {
+			return nil
+		}
+	}
+	if back == nil || back.Op != token.OR {
+		return nil
+	}
+	var shl *ssa.BinOp
+	var byteV ssa.Value
+	for k := 0; k < 2; k++ {
+		x, y := back.X, back.Y
+		if k == 1 {
+			x, y = y, x
+		}
+		if s, ok := x.(*ssa.BinOp); ok && s.Op == token.SHL && s.X == ssa.Value(ph) && isConstInt(s.Y, 8) {
+			shl, byteV = s, y
+		}
+	}
+	if shl == nil {
+		return nil
+	}
+	// the index: an induction variable of the same loop, step +1, test i < init + k
+	iff, ok := h.Instrs[len(h.Instrs)-1].(*ssa.If)
+	if !ok {
+		return nil
+	}
+	cond, ok := iff.Cond.(*ssa.BinOp)
+	if !ok || cond.Op != token.LSS {
+		return nil
+	}
+	iv, ok := cond.X.(*ssa.Phi)
+	if !ok || iv.Block() != h {
+		return nil
+	}
+	ind := InductionOf(iv)
+	if ind == nil || ind.Step != 1 || len(ind.Inits) != 1 {
+		return nil
+	}
+	bnd, ok := cond.Y.(*ssa.BinOp)
+	if !ok || bnd.Op != token.ADD {
+		return nil
+	}
+	var kc *big.Int
+	switch {
+	case bnd.X == ind.Inits[0]:
+		kc, _ = constInt(bnd.Y)
+	case bnd.Y == ind.Inits[0]:
+		kc, _ = constInt(bnd.X)
+	}
+	if kc == nil || kc.Sign() <= 0 || kc.Int64() > 8 {
+		return nil
+	}
+	// the loop has no other exit and the accumulator no other update
+	body := naturalLoop(h)
+	for b := range body {
+		if b == h {
+			continue
+		}
+		for _, sc := range b.Succs {
+			if !body[sc] {
+				return nil
+			}
+		}
+	}
+	// term side: the alternative that is not 0 is bin(|; bin(<<; cycle; 8); E) with E reading src at the index term
+	var upd *Term
+	for _, a := range t.Args {
+		if !(a.IsConst() && a.Sym == "0") {
+			upd = a
+		}
+	}
+	if upd == nil || upd.Op != "bin" || upd.Sym != "|" {
+		return nil
+	}
+	var e *Term
+	for k := 0; k < 2; k++ {
+		x, y := upd.Args[k], upd.Args[1-k]
+		if x.Op == "bin" && x.Sym == "<<" && x.Args[0].Op == "cycle" && x.Args[1].IsConst() && x.Args[1].Sym == "8" {
+			e = y
+		}
+	}
+	if e == nil {
+		return nil
+	}
+	// find index(src; I) inside e and the induction term I = phi(start; cycle+1)
+	var idxNode *Term
+	e.Walk(func(x *Term) bool {
+		if x.Op == "index" && len(x.Args) == 2 && idxNode == nil {
+			idxNode = x
+		}
+		return idxNode == nil
+	})
+	if idxNode == nil || idxNode.Args[1].Op != "phi" {
+		return nil
+	}
+	_ = byteV
+	var start *Term
+	for _, a := range idxNode.Args[1].Args {
+		if !a.ContainsStr("cycle(") {
+			start = a
+		}
+	}
+	if start == nil {
+		return nil
+	}
+	k := int(kc.Int64())
+	var out *Term
+	for j := 0; j < k; j++ {
+		idx := start
+		if j > 0 {
+			idx = mk("bin", "+", start, mk("const", fmt.Sprint(j)))
+		}
+		// e with its index replaced by start+j
+		bj := substIndex(e, idxNode, mk("index", "", idxNode.Args[0], idx))
+		term := bj
+		if sh := 8 * (k - 1 - j); sh > 0 {
+			term = mk("bin", "<<", bj, mk("const", fmt.Sprint(sh)))
+		}
+		if out == nil {
+			out = term
+		} else {
+			out = mk("bin", "|", out, term)
+		}
+	}
+	return out
+}
+
+func substIndex(t, from, to *Term) *Term {
+	if t == from {
+		return to
+	}
+	changed := false
+	args := make([]*Term, len(t.Args))
+	for i, a := range t.Args {
+		args[i] = substIndex(a, from, to)
+		if args[i] != a {
+			changed = true
+		}
+	}
+	if !changed {
+		return t
+	}
+	return &Term{Op: t.Op, Sym: t.Sym, Args: args, Val: t.Val, Typ: t.Typ, Env: t.Env}
 }
 
 func clip(s string, n int) string {
